@@ -149,3 +149,76 @@ func isBytesBuffer(r io.Reader) bool {
 //@ loop 0 invariant skipped: vForall(d.prevStart+(old(pos)-old(d.prevStart)), pos, func(i int) bool { return isWS(d.buf[i]) })
 //@ loop 0 invariant names: nsLocalOK(d.Names.offsets, d.Names.unquotedNames) && nsRemoteOK(d.Names.offsets, len(d.buf)) && distinctArrays(d.Names.unquotedNames, d.buf) && len(d.Names.offsets) == old(len(d.Names.offsets))
 //@ loop 0 invariant alias: sameOrFresh(d.buf, old(d.buf)) && sameOrFresh(d.Names.unquotedNames, old(d.Names.unquotedNames))
+
+// consumeLiteral: the literal is re-scanned from its start after every refill,
+// and its start keeps its place in the window (same absolute offset).
+//
+//@ func (*decoderState).consumeLiteral
+//@ property C05 C16 C20
+//@ requires d != nil && dbInv(d.prevStart, d.prevEnd, len(d.buf), d.baseOffset) && d.prevStart <= pos && pos <= len(d.buf) && d.baseOffset+int64(len(d.buf)) < 1<<61
+//@ requires nsLocalOK(d.Names.offsets, d.Names.unquotedNames) && nsRemoteOK(d.Names.offsets, len(d.buf)) && distinctArrays(d.Names.unquotedNames, d.buf)
+//@ modifies d.buf, d.buf[:cap(d.buf)], d.prevStart, d.prevEnd, d.baseOffset, d.Names.unquotedNames, d.Names.unquotedNames[:cap(d.Names.unquotedNames)], d.Names.offsets[:]
+//@ ensures inv: dbInv(d.prevStart, d.prevEnd, len(d.buf), d.baseOffset) && d.prevStart <= newPos && newPos <= len(d.buf)
+//@ ensures start: d.baseOffset+int64(d.prevStart) == old(d.baseOffset)+int64(old(d.prevStart))
+//@ ensures end: d.baseOffset+int64(d.prevEnd) == old(d.baseOffset)+int64(old(d.prevEnd))
+//@ ensures names: nsLocalOK(d.Names.offsets, d.Names.unquotedNames) && nsRemoteOK(d.Names.offsets, len(d.buf)) && distinctArrays(d.Names.unquotedNames, d.buf) && len(d.Names.offsets) == old(len(d.Names.offsets))
+//@ ensures alias: sameOrFresh(d.buf, old(d.buf)) && sameOrFresh(d.Names.unquotedNames, old(d.Names.unquotedNames))
+//@ ensures anchor: newPos-d.prevStart >= pos-old(d.prevStart) && newPos-d.prevStart <= pos-old(d.prevStart)+len(lit)
+//@ ensures ok: err == nil ==> newPos-d.prevStart == pos-old(d.prevStart)+len(lit) && vForall(0, len(lit), func(k int) bool { return d.buf[newPos-len(lit)+k] == lit[k] })
+//@ loop 0 invariant inv: dbInv(d.prevStart, d.prevEnd, len(d.buf), d.baseOffset)
+//@ loop 0 invariant pos: d.prevStart <= pos && pos <= len(d.buf)
+//@ loop 0 invariant bound: d.baseOffset+int64(len(d.buf)) < 1<<61
+//@ loop 0 invariant start: d.baseOffset+int64(d.prevStart) == old(d.baseOffset)+int64(old(d.prevStart))
+//@ loop 0 invariant end: d.baseOffset+int64(d.prevEnd) == old(d.baseOffset)+int64(old(d.prevEnd))
+//@ loop 0 invariant anchor: pos-d.prevStart == old(pos)-old(d.prevStart)
+//@ loop 0 invariant names: nsLocalOK(d.Names.offsets, d.Names.unquotedNames) && nsRemoteOK(d.Names.offsets, len(d.buf)) && distinctArrays(d.Names.unquotedNames, d.buf) && len(d.Names.offsets) == old(len(d.Names.offsets))
+//@ loop 0 invariant alias: sameOrFresh(d.buf, old(d.buf)) && sameOrFresh(d.Names.unquotedNames, old(d.Names.unquotedNames))
+
+// consumeString: the scan resumes at offset n of the same string after every
+// refill; the string's start keeps its place in the window.
+//
+//@ func (*decoderState).consumeString
+//@ property C05 C16 C20
+//@ requires flags != nil
+//@ requires d != nil && dbInv(d.prevStart, d.prevEnd, len(d.buf), d.baseOffset) && d.prevStart <= pos && pos <= len(d.buf) && d.baseOffset+int64(len(d.buf)) < 1<<61
+//@ requires nsLocalOK(d.Names.offsets, d.Names.unquotedNames) && nsRemoteOK(d.Names.offsets, len(d.buf)) && distinctArrays(d.Names.unquotedNames, d.buf)
+//@ modifies d.buf, d.buf[:cap(d.buf)], d.prevStart, d.prevEnd, d.baseOffset, d.Names.unquotedNames, d.Names.unquotedNames[:cap(d.Names.unquotedNames)], d.Names.offsets[:]
+//@ ensures inv: dbInv(d.prevStart, d.prevEnd, len(d.buf), d.baseOffset) && d.prevStart <= newPos && newPos <= len(d.buf)
+//@ ensures start: d.baseOffset+int64(d.prevStart) == old(d.baseOffset)+int64(old(d.prevStart))
+//@ ensures end: d.baseOffset+int64(d.prevEnd) == old(d.baseOffset)+int64(old(d.prevEnd))
+//@ ensures names: nsLocalOK(d.Names.offsets, d.Names.unquotedNames) && nsRemoteOK(d.Names.offsets, len(d.buf)) && distinctArrays(d.Names.unquotedNames, d.buf) && len(d.Names.offsets) == old(len(d.Names.offsets))
+//@ ensures alias: sameOrFresh(d.buf, old(d.buf)) && sameOrFresh(d.Names.unquotedNames, old(d.Names.unquotedNames))
+//@ ensures anchor: newPos-d.prevStart >= pos-old(d.prevStart)
+//@ loop 0 invariant inv: dbInv(d.prevStart, d.prevEnd, len(d.buf), d.baseOffset)
+//@ loop 0 invariant pos: d.prevStart <= pos && pos <= len(d.buf)
+//@ loop 0 invariant bound: d.baseOffset+int64(len(d.buf)) < 1<<61
+//@ loop 0 invariant start: d.baseOffset+int64(d.prevStart) == old(d.baseOffset)+int64(old(d.prevStart))
+//@ loop 0 invariant end: d.baseOffset+int64(d.prevEnd) == old(d.baseOffset)+int64(old(d.prevEnd))
+//@ loop 0 invariant anchor: pos-d.prevStart == old(pos)-old(d.prevStart)
+//@ loop 0 invariant names: nsLocalOK(d.Names.offsets, d.Names.unquotedNames) && nsRemoteOK(d.Names.offsets, len(d.buf)) && distinctArrays(d.Names.unquotedNames, d.buf) && len(d.Names.offsets) == old(len(d.Names.offsets))
+//@ loop 0 invariant alias: sameOrFresh(d.buf, old(d.buf)) && sameOrFresh(d.Names.unquotedNames, old(d.Names.unquotedNames))
+//@ loop 0 invariant resume: 0 <= n && pos+n <= len(d.buf)
+
+// consumeNumber: likewise; a number may end at EOF exactly when the scanner
+// stopped in an accepting state.
+//
+//@ func (*decoderState).consumeNumber
+//@ property C05 C10 C16 C20
+//@ requires d != nil && dbInv(d.prevStart, d.prevEnd, len(d.buf), d.baseOffset) && d.prevStart <= pos && pos <= len(d.buf) && d.baseOffset+int64(len(d.buf)) < 1<<61
+//@ requires nsLocalOK(d.Names.offsets, d.Names.unquotedNames) && nsRemoteOK(d.Names.offsets, len(d.buf)) && distinctArrays(d.Names.unquotedNames, d.buf)
+//@ modifies d.buf, d.buf[:cap(d.buf)], d.prevStart, d.prevEnd, d.baseOffset, d.Names.unquotedNames, d.Names.unquotedNames[:cap(d.Names.unquotedNames)], d.Names.offsets[:]
+//@ ensures inv: dbInv(d.prevStart, d.prevEnd, len(d.buf), d.baseOffset) && d.prevStart <= newPos && newPos <= len(d.buf)
+//@ ensures start: d.baseOffset+int64(d.prevStart) == old(d.baseOffset)+int64(old(d.prevStart))
+//@ ensures end: d.baseOffset+int64(d.prevEnd) == old(d.baseOffset)+int64(old(d.prevEnd))
+//@ ensures names: nsLocalOK(d.Names.offsets, d.Names.unquotedNames) && nsRemoteOK(d.Names.offsets, len(d.buf)) && distinctArrays(d.Names.unquotedNames, d.buf) && len(d.Names.offsets) == old(len(d.Names.offsets))
+//@ ensures alias: sameOrFresh(d.buf, old(d.buf)) && sameOrFresh(d.Names.unquotedNames, old(d.Names.unquotedNames))
+//@ ensures anchor: newPos-d.prevStart >= pos-old(d.prevStart)
+//@ loop 0 invariant inv: dbInv(d.prevStart, d.prevEnd, len(d.buf), d.baseOffset)
+//@ loop 0 invariant pos: d.prevStart <= pos && pos <= len(d.buf)
+//@ loop 0 invariant bound: d.baseOffset+int64(len(d.buf)) < 1<<61
+//@ loop 0 invariant start: d.baseOffset+int64(d.prevStart) == old(d.baseOffset)+int64(old(d.prevStart))
+//@ loop 0 invariant end: d.baseOffset+int64(d.prevEnd) == old(d.baseOffset)+int64(old(d.prevEnd))
+//@ loop 0 invariant anchor: pos-d.prevStart == old(pos)-old(d.prevStart)
+//@ loop 0 invariant names: nsLocalOK(d.Names.offsets, d.Names.unquotedNames) && nsRemoteOK(d.Names.offsets, len(d.buf)) && distinctArrays(d.Names.unquotedNames, d.buf) && len(d.Names.offsets) == old(len(d.Names.offsets))
+//@ loop 0 invariant alias: sameOrFresh(d.buf, old(d.buf)) && sameOrFresh(d.Names.unquotedNames, old(d.Names.unquotedNames))
+//@ loop 0 invariant resume: 0 <= n && pos+n <= len(d.buf) && state <= 6 && (state <= 1 ==> n == 0) && (state == 5 ==> pos+n < len(d.buf))
